@@ -349,7 +349,15 @@ func TestC06Corruption(t *testing.T) {
 				evid.Class("query-error-without-undamaged-rows")
 			} else {
 				w := fmt.Sprintf("%s -> %s", descs, resp.Err)
-				if evid.Known("C06-F5c", w) {
+				// only failures to open / decode the metadata of a day belong to the open finding
+				metaErr := strings.Contains(resp.Err, "metadata") || strings.Contains(resp.Err, "ascertain query block timing") || strings.Contains(resp.Err, "internal error during query processing")
+				touchesMeta := false
+				for _, d := range descs {
+					if strings.Contains(d, ".blockmeta") {
+						touchesMeta = true
+					}
+				}
+				if metaErr && touchesMeta && evid.Known("C06-F5c", w) {
 					evid.Class("known:query-aborted")
 				} else {
 					t.Fatalf("%s", evid.Sig("C06:query-aborted", "damage in %v makes the whole query fail (%s) although %d rows belong to undamaged days\n  %s", dl, resp.Err, len(want), ctx))
